@@ -225,6 +225,7 @@ class Session:
         self.aborts = {"apply": 0, "scan": 0, "missed": 0}
         self.track_ids = plan.get("prop") == "C15"
         self.tainted = set()  # rule objects whose evaluation the plan cancels (unspecified after)
+        self.held = {}  # F14: list objects the caller passed to a builder call and still owns
 
     # -- argument decoding ---------------------------------------------------------
     def _arg(self, a, ns):
@@ -237,6 +238,18 @@ class Session:
                 return Path(self.scratch) / a["$path"]
             if "$tuple" in a:
                 return tuple(self._arg(x, ns) for x in a["$tuple"])
+            if "$keep" in a:
+                # the caller keeps a reference to the list it passes (and may change it later)
+                lst = [self._arg(x, ns) for x in a["v"]]
+                self.held[a["$keep"]] = lst
+                return lst
+            if "$held" in a:
+                return self.held[a["$held"]]  # the very list object passed before
+            if "$shared" in a:
+                # a constant of the test module: one list object for every call that names it
+                if a["$shared"] not in self.held:
+                    self.held[a["$shared"]] = list(self.plan["shared_lists"][a["$shared"]])
+                return self.held[a["$shared"]]
             raise ValueError(f"bad arg {a}")
         if isinstance(a, list):
             return [self._arg(x, ns) for x in a]
@@ -315,14 +328,22 @@ class Session:
         if op["obj"] in ns.dead or op["obj"] not in ns:
             return {"r": "skip"}
         target = ns[op["obj"]]
+        aliased = [a for a in op.get("a", []) if isinstance(a, dict) and ("$keep" in a or "$held" in a)]
+        if any("$held" in a and a["$held"] not in self.held for a in aliased):
+            return {"r": "skip", "why": "no-held-list"}  # only in plans cut down by the minimiser
         args = [self._arg(a, ns) for a in op.get("a", [])]
+        # what the caller's lists held at the moment of the call (the harness's own action, logged
+        # before the library sees it)
+        argv = json.loads(json.dumps(args)) if aliased else None
         try:
             ret = getattr(target, op["m"])(*args)
         except Exception as e:  # noqa: BLE001
             if not op.get("cont"):
                 ns.dead.add(op["obj"])  # else: the caller keeps using the object
-            return {"r": "exc", **_exc_info(e, self.scratch)}
+            return {"r": "exc", **_exc_info(e, self.scratch), **({"argv": argv} if aliased else {})}
         res = {"r": "ok"}
+        if aliased:
+            res["argv"] = argv
         if ret is not None and ret is not target:
             ns[op["obj"]] = ret
             res["newobj"] = True
@@ -386,6 +407,28 @@ class Session:
         gc.collect()
         return {"r": "ok"}
 
+    def do_mutate(self, op):
+        """F14: the caller changes a list it passed to an earlier builder call (it is the caller's
+        list; what a definition holds is what was supplied at the call)."""
+        lst = self.held.get(op["name"])
+        if lst is None:
+            return {"r": "skip", "why": "no-held-list"}
+        how = op["how"]
+        before = list(lst)
+        if how[0] == "clear":
+            lst.clear()
+        elif how[0] == "append":
+            lst.append(how[1])
+        elif how[0] == "pop" and lst:
+            lst.pop(how[1] % len(lst))
+        elif how[0] == "set" and lst:
+            lst[how[1] % len(lst)] = how[2]
+        elif how[0] == "reverse":
+            lst.reverse()
+        elif how[0] == "refill":
+            lst[:] = how[1]
+        return {"r": "ok", "before": before, "after": list(lst)}
+
     def do_str(self, op, ns):
         if op["obj"] in ns.dead or op["obj"] not in ns:
             return {"r": "skip"}
@@ -443,6 +486,8 @@ class Session:
             return self.do_mapping(op, ns)
         if kind == "drop":
             return self.do_drop(op, ns, evs)
+        if kind == "mutate":
+            return self.do_mutate(op)
         raise ValueError(f"unknown op {kind}")
 
     # -- phases ----------------------------------------------------------------------
@@ -545,5 +590,9 @@ def execute(plan, scratch_base=None, run_tag="0"):
         "fs": fsseam.counters(),
         "warnings": _warning_count[0],
         # not part of any digest: addresses are not reproducible across processes
-        "probes": {"aborts": dict(sess.aborts), "evaluable_address_reused": ids.reused},
+        "probes": {"aborts": dict(sess.aborts), "evaluable_address_reused": ids.reused,
+                   # F14: constants of the caller that no longer hold what the caller put there
+                   "caller_list_changed_by_library": sum(
+                       1 for k, v in (plan.get("shared_lists") or {}).items()
+                       if k in sess.held and sess.held[k] != v)},
     }
